@@ -27,6 +27,7 @@ def define_entities(db):
         a = Required(int, size=64)
         b = Optional(int, size=64)
         f = Required(bool)
+        h = Optional(bool)
         s = Required(str)
         u = Optional(str, nullable=True)
         g = Optional(G)
@@ -60,6 +61,7 @@ def atoms():
                  ('p.s[1:]', 'y'), ('p.s.upper()', 'y'), ('p.s[:x]', 'y'), ('p.s[x:]', 'p.u')]:
         for op in ('==', '!=', '<', '>='): out.append('%s %s %s' % (l, op, r))
     out += ['p.b is None', 'p.b is not None', 'p.u is None', 'p.g is None', 'p.g is not None', 'p.b == None', 'p.u != None', 'p.g.n is None',
+            'p.h', 'not p.h', 'p.h is None', 'p.h == p.f', 'p.h != True', 'p.h and p.a > x', 'not p.h or p.b is None', 'not (p.h and p.f)', 'p.h == None', 'p.f and not p.h',
             'p.f', 'p.b', 'p.a', 'p.u', 'p.s', 'p.g', 'p.g.n', 'not p.f', 'not p.b', 'not p.u', 'not p.g', 'not p.a',
             'p.a in (1, 2)', 'p.b in (0, x)', 'p.b not in (1, x)', 'p.a not in (0, 1)', "p.s in ('a', y)", "p.u not in ('a', 'b')",
             "p.s.startswith(y)", "p.s.endswith(y)", "y in p.s", "p.u.startswith('a')", "'a' in p.u", "p.s.startswith('a')", "p.s.endswith('%')",
